@@ -53,6 +53,15 @@ def _dict_stores(ctx: Ctx, f: Func):
     return out
 
 
+def _opaque(ctx):
+    from .c12 import _opaque as o12
+
+    return o12(ctx)
+
+
+META[P]["opaque"] = _opaque
+
+
 @rule(P)
 def c13_1(ctx: Ctx) -> RuleResult:
     res = RuleResult("C13.1", "TERM", "lower/upper difference == value - lower/upper bound of the same family")
